@@ -112,9 +112,10 @@ class ChannelItem(EFLRItem, DimensionedItem):
         if dt is not None:
             ReprCodeConverter.validate_numpy_dtype(dt)
 
-        self._cast_dtype = dt
+        # in this order, a write interrupted in between (e.g. Ctrl-C) leaves a state the next write re-derives from
         self._cast_dtype_inferred = inferred
-        self.representation_code.set_from_dtype(self.cast_dtype)
+        self.representation_code.set_from_dtype(dt)
+        self._cast_dtype = dt
 
     def set_dimension_and_repr_code_from_data(self, data: SourceDataWrapper) -> None:
         """Determine and dimension and representation code attributes of the ChannelItem based on the source data."""
